@@ -1005,7 +1005,51 @@ pub fn child_main(args: &Args) -> ! {
                 }
             }
         }
-        write_files(&case_dir, &names, &files);
+        // How the alteration arrives. Most cases: the files are simply written. Two cases in eleven
+        // model a process that has already read the pristine files under these very names (what it
+        // learnt then - verified blocks, open handles, located paths - must not answer for the bytes
+        // that are there now) and an alteration that keeps the file's times: written in place
+        // (same inode, same length, modification time put back, as a misdirected write or bit rot
+        // does), or as a new file renamed over the name with the old times (rsync -t, cp -p, tar).
+        let delivery = match i % 11 {
+            5 => "in-place-times-kept",
+            6 => "renamed-over-times-kept",
+            _ => "written",
+        };
+        if delivery == "written" || files.iter().any(|b| b.as_slice() == simcore::fault::REMOVED) {
+            write_files(&case_dir, &names, &files);
+        } else {
+            write_files(&case_dir, &names, &pristine_bytes);
+            // the process reads (and verifies) what is there before the alteration
+            match mode {
+                Mode::C04 => {
+                    if let Ok(c) = jubako::reader::Container::new(&entry) {
+                        let _ = c.check();
+                    }
+                    for n in &names {
+                        if let Ok(cp) = jubako::tools::open_pack(case_dir.join(n)) {
+                            let _ = cp.check();
+                        }
+                    }
+                }
+                _ => {
+                    let _ = dump::dump_container(&entry, &spec);
+                }
+            }
+            for (n, b) in names.iter().zip(&files) {
+                let path = case_dir.join(n);
+                let meta = std::fs::metadata(&path).expect("stat case file");
+                let times = std::fs::FileTimes::new()
+                    .set_accessed(meta.accessed().expect("atime"))
+                    .set_modified(meta.modified().expect("mtime"));
+                let target = if delivery == "renamed-over-times-kept" { case_dir.join(format!("{n}.incoming")) } else { path.clone() };
+                std::fs::write(&target, b).expect("write case file");
+                std::fs::OpenOptions::new().write(true).open(&target).and_then(|f| f.set_times(times)).expect("set file times");
+                if target != path {
+                    std::fs::rename(&target, &path).expect("rename case file");
+                }
+            }
+        }
         // (C06) one case in seven runs in a process whose standard error cannot be written to
         let broken_stderr = if mode == Mode::C06 && i % 7 == 4 { Some(proc::child::BrokenStderr::install()) } else { None };
         let payload = std::panic::catch_unwind(std::panic::AssertUnwindSafe(|| match mode {
@@ -1019,7 +1063,7 @@ pub fn child_main(args: &Args) -> ! {
                     stale.insert(format!("pack {n}"), json!(check_str(p.check())));
                 }
                 obs["held_handles"] = Value::Object(stale);
-                json!({"fired": fired, "obs": obs})
+                json!({"fired": fired, "obs": obs, "delivery": delivery})
             }
             Mode::C05 | Mode::C06 => {
                 // the rewrite step only for damage that lands in a manifest pack-info slot (it is
@@ -1072,6 +1116,7 @@ pub fn child_main(args: &Args) -> ! {
                 json!({
                     "fired": fired,
                     "moved_after_open": moved,
+                    "delivery": delivery,
                     "mmap_refused": env_faults.get("mmap").copied().unwrap_or(0),
                     "read_failed": env_faults.get("file_read").copied().unwrap_or(0),
                     "decoder_refused": env_faults.get("decoder_build").copied().unwrap_or(0),
@@ -1590,6 +1635,11 @@ pub fn parent_main(args: &Args, mode: Mode) -> ! {
             *outcome_counts.entry(format!("{profile}:{outcome}")).or_insert(0) += 1;
             if rec["payload"]["stderr_unusable"] == true {
                 ev.fired("environment:standard-error-unusable (EPIPE)", 1);
+            }
+            match rec["payload"]["delivery"].as_str() {
+                Some("in-place-times-kept") => ev.fired("alteration-in-place-with-the-file-times-kept, after this process read the pristine file", 1),
+                Some("renamed-over-times-kept") => ev.fired("alteration-as-a-new-file-renamed-over-the-name-with-the-old-times, after this process read the pristine file", 1),
+                _ => {}
             }
             if rec["payload"]["moved_after_open"] == true {
                 ev.fired("environment:container-file-renamed-once-open", 1);
